@@ -78,6 +78,10 @@ func genField(r *vh.Rand, name string, pool []fty, refs []declRef, alias map[str
 			used[d.Pkg] = true
 		}
 		var body []string
+		if d.Kind == "enum" && r.Chance(50) {
+			// every generated enum has the option V0; the compiled rule holds its NUMBER
+			body = append(body, prefixFor(d.Kind)+vh.Pick(r, []string{`rules.in = ["V0"]`, `rules.notIn = ["V0"]`}))
+		}
 		if r.Chance(30) && d.Kind != "object" {
 			body = append(body, prefixFor(d.Kind)+"listRules.filtering.filterable = true")
 		}
@@ -163,7 +167,8 @@ func genBundle(r *vh.Rand) bundleT {
 				case k < 6: // enum with info maps (several keys: exercises map-option printing)
 					var ls []string
 					ls = append(ls, "enum "+name+" {")
-					keys := []string{"color", "shape", "weight", "zeta", "alpha", "mid"}
+					keys := []string{"color", "hex", "Hex", "shape", "weight", "zeta", "alpha", "mid", "HEX"}
+					keys = shuffled(r, keys)
 					nk := r.Intn(len(keys) + 1)
 					for _, kk := range keys[:nk] {
 						ls = append(ls, "  info "+kk+" {", "    label = \""+strings.ToUpper(kk)+"\"", "  }")
@@ -252,4 +257,95 @@ func genBundle(r *vh.Rand) bundleT {
 		}
 	}
 	return b
+}
+
+// collisionBundle: same-named enums in scopes that a careless cache key would confuse (a main-package
+// object named like a service request message, with an inline enum of the same name but another
+// numbering; a same-named top-level enum in another package), every use constrained by rules.in /
+// rules.notIn, whose compiled form holds the option NUMBERS.
+func collisionBundle() bundleT {
+	return bundleT{
+		Packages: []string{"foo.v1", "bar.v1"},
+		Content: map[string]string{
+			"foo/v1/a.j5s": `package foo.v1
+
+object PingRequest {
+  field kind enum {
+    option X
+    option Y
+    option Z
+    rules.in = ["Y", "Z"]
+  }
+  field kinds array:enum:Kind {
+    items.enum.rules.notIn = ["B"]
+  }
+}
+
+enum Kind {
+  option A
+  option B
+  option C
+}
+`,
+			"foo/v1/b.j5s": `package foo.v1
+
+service Pinger {
+  basePath = "/foo/pinger"
+  method Ping {
+    httpMethod = "POST"
+    httpPath = "/ping"
+    request {
+      field kind enum {
+        option Z
+        option Y
+        option X
+        rules.in = ["Y", "Z"]
+      }
+    }
+    response {
+      field k enum:Kind {
+        rules.in = ["B", "C"]
+      }
+      field kind enum {
+        option Y
+        option X
+        rules.notIn = ["Y"]
+      }
+    }
+  }
+}
+`,
+			"foo/v1/c.j5s": `package foo.v1
+
+object Service {
+  field kind enum {
+    option Y
+    option Z
+    option X
+    rules.in = ["Z"]
+  }
+}
+`,
+			"bar/v1/a.j5s": `package bar.v1
+
+import foo.v1:foo
+
+enum Kind {
+  option C
+  option B
+  option A
+}
+
+object Use {
+  field k enum:Kind {
+    rules.in = ["A"]
+  }
+  field fk enum:foo.Kind {
+    rules.in = ["A"]
+  }
+  field ping object:foo.PingRequest
+}
+`,
+		},
+	}
 }
